@@ -262,7 +262,7 @@ reg("C28", "exploration", "TLA+ reference of the KNX IP Secure CCM construction 
     "DESIGN.md section 5 C28")
 
 reg("C04", "exploration", "TLA+ table of application services per ten-bit APCI value (ApciTable.tla) and law DecodeOk evaluated by TLC on every recorded APCI.from_knx outcome (watchdog)",
-    "All APDUs of 0 and 1 octets, all (a stride in quick) of 2 octets, and for each of the 1024 ten-bit codes APDUs of every length 3..24 (plus 40, 64, 254, 255) with constant and "
+    "All APDUs of 0 and 1 octets, all (a stride in quick) of 2 octets, and for each of the 1024 ten-bit codes APDUs of every length 3..48, 64, 254, 255 (thorough: every length 3..255) with constant and "
     "random content are decoded by the real APCI.from_knx under a 1 s watchdog; TLC judges each outcome against the service table: only a service, ConversionError or "
     "UnsupportedAPCIService; for a code of an implemented service never 'unsupported' and never another service; for other codes 'unsupported'.",
     "Trusted: TLC; the service table (a frozen transcription, anchored by ASSUMEs for well-known codes).",
@@ -278,3 +278,30 @@ reg("C06", "exploration", "TLA+ law EncodeOk (refused or equal) evaluated by TLC
     "encoded and decoded; TLC judges: refused (any exception at the call) or an equal object of the same class - never a different one.",
     "Trusted: TLC; equality is the library's own.",
     "DESIGN.md section 5 C06", driver="c04", entry="run06")
+
+reg("C07", "exploration", "TLA+ law DecodeOk / ConsumerOk (Dpt.tla) evaluated by TLC on recorded from_knx outcomes of every datapoint class and on sessions of a started XKNX",
+    "Every concrete datapoint class x every 6-bit payload, the empty array, every 1-octet array, every (quick: a stride of) 2-octet array, arrays of every length 3..16 / 30 / 254 and, at the "
+    "declared length, every octet value in every position: the real from_knx; TLC judges the outcome classes (value, CouldNotParseTelegram, ConversionError - nothing else). One payload "
+    "per (class, shape, outcome) is also received as GroupValueWrite and GroupValueResponse on a configured group address by a started XKNX (virtual time); TLC judges that the "
+    "telegram consumer is alive afterwards and processed the telegrams.",
+    "Trusted: TLC; outcome classification by exception type in the driver.",
+    "DESIGN.md section 5 C07", driver="c07", entry="run07")
+reg("C08", "exploration", "TLA+ law ReencodeOk (Dpt.tla: equal value, or documented '?' replacement bounded by the non-ASCII octets) evaluated by TLC on recorded decode / encode / decode sessions",
+    "Every payload of the C07 plan of the declared shape that decodes: to_knx of the decoded value, from_knx of the result, comparison (NaN by identity of kind; text by code points); TLC "
+    "judges: encoder accepted, decoder accepted, same value - for ASCII text types only U+FFFD -> '?' changes, no more of them than octets >= 80h in the payload.",
+    "Trusted: TLC; Python equality of decoded values.",
+    "DESIGN.md section 5 C08", driver="c07", entry="run08")
+reg("C09", "exploration", "TLA+ reference decoders (fixed point, 0..255 scaling, KNX float16 with minimal-exponent step) and range / resolution law NumOk (Dpt.tla) evaluated by TLC on recorded to_knx / from_knx sessions, exact integer arithmetic",
+    "Every numeric class: its declared minimum, maximum and resolution are read from the class; 1- and 2-octet fixed-point types: every representable value of the declared range (quick: a stride), "
+    "values between them (1/4, 1/2, 3/4 step, one thousandth of a step above / below), whole numbers, and values beyond both ends; DPT 9: every mantissa boundary of every exponent with "
+    "half-step and infinitesimal displacements, whole numbers across the range, range ends; 32 / 64-bit integers relative to both range ends and inside; DPT 14 against the binary32 grid. "
+    "TLC decodes each produced payload with its own reference decoder and judges: in range - accepted, declared length, |decoded - given| < one step, the type decodes its own "
+    "encoding and to the reference value; out of range - ConversionError.",
+    "Trusted: TLC; for DPT 14 and 32 / 64-bit integers the arithmetic beyond 31 bits is the driver's (offsets to an anchor are judged by TLC).",
+    "DESIGN.md section 5 C09", driver="c07", entry="run09")
+reg("C10", "exploration", "TLA+ law JsonOk evaluated by TLC on recorded decode / JSON form / json.dumps / json.loads / encode / decode sessions",
+    "Every complex and enumerated class over the C07 payload plan of the declared shape (exhaustive up to two octets; every octet value in every position for longer ones, which covers every "
+    "combination of one validity flag octet with typical remainder, plus random payloads): the decoded value's as_dict() / lower-case name is passed through the standard JSON encoder "
+    "and decoder, given to to_knx, and the result decoded; TLC judges: serialisable, accepted, same value.",
+    "Trusted: TLC; Python equality of decoded values.",
+    "DESIGN.md section 5 C10", driver="c07", entry="run10")
